@@ -39,5 +39,23 @@ if go test -vet=off -count=1 -timeout 25m $PK > "$D"/confirm.tests.log 2>&1; the
     cp "$D"/confirm.tests.retry$try.log "$D"/confirm.tests.log
   done
 fi
+if [ $ok = 0 ]; then
+  # still failing: is it the machine?  The same tests are run on the clean tree under the same load; a test
+  # that fails there too says nothing about the patch, and is then given five more solo runs on the mutant.
+  FT=$(grep -E '^--- FAIL: ' "$D"/confirm.tests.log | awk '{print $3}' | sed 's|/.*||' | sort -u | tr '\n' '|' | sed 's/|$//')
+  FP=$(grep -E '^FAIL[[:space:]]+github.com' "$D"/confirm.tests.log | awk '{print $2}' | sed 's|github.com/semihalev/sdns|.|' | sort -u | tr '\n' ' ')
+  if [ -n "$FT" ] && [ -n "$FP" ]; then
+    CW=$(mktemp -d /tmp/wt-confirm-clean-XXXXXX); rmdir "$CW"; git -C /repo worktree add -q --detach "$CW" HEAD
+    cleanfail=0
+    for i in 1 2 3; do (cd "$CW" && go test -vet=off -count=1 -run "^($FT)\$" $FP > "$D"/confirm.cleanload.log 2>&1) || cleanfail=1; done
+    git -C /repo worktree remove --force "$CW" >/dev/null 2>&1; rm -rf "$CW"
+    if [ $cleanfail = 1 ]; then
+      for i in 1 2 3 4 5; do
+        if go test -vet=off -count=1 -p 1 -run "^($FT)\$" $FP > "$D"/confirm.tests.solo.log 2>&1; then ok=1; echo "  ($FT also fails on the clean tree under this load; passed solo on the mutant, run $i)"; break; fi
+        sleep 3
+      done
+    fi
+  fi
+fi
 if [ $ok = 1 ]; then echo "existing tests ($PK) with patch: PASS"; else echo "existing tests ($PK) with patch: FAIL"; grep -E '^(--- FAIL|FAIL)' "$D"/confirm.tests.log | head; rc=1; fi
 exit $rc
